@@ -18,6 +18,10 @@ def floordiv(a, b):
 class ExprMixin:
     # ---------------------------------------------------------------- names
     def lookup(self, name, fr):
+        of = getattr(self.cur_contract, 'opaque_fns', None) or {}
+        if name in of and name not in fr.env:
+            from .zsorts import VFn
+            return VFn(name, api.Fn(of[name][0], of[name][1], name))
         f = fr
         while f is not None:
             if name in f.env:
@@ -516,6 +520,8 @@ class ExprMixin:
                     return base[idx]
                 except (IndexError, KeyError) as ex:
                     raise PyRaise(type(ex), (), node, implicit=True)
+            if isinstance(base, (tuple, list)) and not base and self.cur_pure():
+                return Bottom()       # element of an empty sequence: only meaningful under a false guard
             if isinstance(base, (tuple, list)) and base:
                 # symbolic index into a concrete sequence
                 n = len(base)
@@ -807,6 +813,10 @@ class ExprMixin:
                 out += r
             return out
         return None
+
+
+class Bottom:
+    """a value that does not exist (element of an empty sequence at a symbolic index); comparisons with it are unconstrained"""
 
 
 class LazyGen:
